@@ -62,6 +62,9 @@ def function_level(chk, rng, binp):
         t = "a" * (k % 4) + ch * rng.pick([100, 300, 700, 1400])
         lines.append("eventburst 2500 " + hx(t)); mlines.append(None); meta.append(("eventburst", t))
         lines.append("evdrain"); mlines.append(None); meta.append(("burstflush", None))
+    # two writers at the moment the queue has exactly one free slot
+    lines.append("eventrace %d" % (40 if n <= 400 else 400)); mlines.append(None); meta.append(("eventrace", "two writers, one free slot"))
+    lines.append("evdrain"); mlines.append(None); meta.append(("burstflush", None))
     # very short bodies, and hosts whose first data frame is one byte (or another odd prefix) long: only "no panic" is compared
     ct = "application/json; charset=utf-16"
     for body, split in [(b"", None), (b"{", None), (b"{\x00", None), (b"{\x00}", None), (b"{\x00}\x00", 1), (b"{\x00}\x00", 3),
